@@ -27,19 +27,25 @@ for d in sorted(glob.glob(os.path.join(VERIF, 'seeded', '*', 'meta.json'))):
         hist.append(f"* **{m['seed_id']}**: {m['history']}")
 text = f'''### 13.6 Seeded breaking changes (independent sub-agents) and which checks catch them
 
-Three waves of fresh sub-agents (14 each, one per claimed property) were given only the text of one property
+Four waves of fresh sub-agents (14 each, one per claimed property) were given only the text of one property
 and a scratch worktree of /repo, and asked for two realistic changes each that break the property while the
 existing 332 tests still pass, with a demonstration.  Wave 2 was told wave 1's mechanisms and asked for narrower,
 harder-to-notice breakage; wave 3 was told all four earlier ones and pointed at configurations, second
-occurrences, error-then-recovery paths and same-instant orderings.  Every change was confirmed by
+occurrences, error-then-recovery paths and same-instant orderings; wave 4 was told all six earlier mechanisms of its
+property and asked for something different again (dynamic multi-step histories, unusual-but-legal configurations).
+Every change was confirmed by
 `tools/try_seed.py` in a fresh scratch worktree (demo passes on the unchanged tree, fails with the patch, `tests`
 still 332 passed), then applied to /repo, the property's quick check run, and /repo restored.  Everything is under
 `seeded/<id>/` (patch.diff, demo, notes.md, meta.json with what was run and, where applicable, `history`).
 
 Result: {len(rows)} changes, all confirmed; **{first} caught at the first attempt, {late} missed at first and caught
 after the check was strengthened, {other} caught only by the check of the neighbouring property that owns the
-changed code** (wave 1: 27/28 at first attempt, wave 2: 21/28, wave 3: 17/28 - the later waves were aimed at what
-the earlier ones had not touched).  What was added for each miss:
+changed code** (wave 1: 27/28 at first attempt, wave 2: 21/28, wave 3: 17/28, wave 4: 20/28 - the later waves were aimed at
+what the earlier ones had not touched; for wave 4 "first attempt" is measured with the harness as it stood when
+the changes arrived, i.e. before the four strengthenings written from the authors' summaries).  One wave-4 change
+(`seeded/_rejected/C04-w4b-outside-quantifier`) was rejected, not counted, and replaced by its author: its
+demonstration needs a proposal set that is not conflict-free, which C04's quantifier excludes - the check was
+rightly silent there and was not extended beyond the property.  What was added for each miss:
 
 ''' + "\n".join(hist) + '''
 
